@@ -26,6 +26,11 @@ def obligations(prop, rep):
         rep.oblige(f"extract:{name}", ok, r.get("error", "regenerated" if r.get("changed") else "unchanged"))
         if not ok:
             broken.append(f"extractor {name}: {r.get('error')}")
+    if "trans" in (getattr(prop, "extractors", None) or []):
+        missing = core.bridge_coverage()
+        rep.oblige("every translated function occurs in a bridge theorem (Proofs/Bridge*.lean)", not missing, ", ".join(missing[:8]))
+        if missing:
+            broken.append("translated functions without a bridge theorem: " + ", ".join(missing[:8]))
     mods = prop.lean_modules
     ok, out = core.lake_build(mods)
     rep.oblige("lake build " + " ".join(mods), ok, "" if ok else out[-1500:])
@@ -71,7 +76,7 @@ def main():
     rep = Report(prop.id, tier, seed)
     rep.trusted = list(getattr(prop, "trusted", [])) + [
         "Lean 4.33.0 kernel; axioms per theorem listed in obligation_list (allowed: propext, Classical.choice, Quot.sound)",
-        "extract/extract.py (source -> Generated/*.lean)",
+        "extract/extract.py (source -> Generated/*.lean) and the translator extract/rs2lean.py + rsparse.py (Rust subset -> Lean, semantics of the mapping in DESIGN 13)",
         "correspondence check: harness/src/main.rs, lean/Driver.lean, orchestrate/*.py",
         "Spec/*.lean: reading of the cited standards",
     ]
